@@ -9,7 +9,7 @@ TRUSTED_BASE = ['Lean 4.33.0 kernel', 'axioms: propext, Quot.sound, Classical.ch
                 'correspondence harness: real XMLElement trees vs the Lean models Element, Values, Serialize, Parser, Mfull through mxdriver',
                 'CPython built-ins modelled or supplied, not verified: str(float) (repr text supplied), float()/int() parsing (oracle), re, xml.etree']
 ASSUMPTIONS = ['theorems are about the hand-written Lean models; the tie to the code is the correspondence run of this check', 'outside the model envelope (answers `unmodelled`/`reserved`): the 7 element types whose attribute table the library cannot build (F9) and Python-reserved dot names']
-OPTS = {'depths': [0, 1, 2], 'mixed': 0.1, 'copy': 0.0, 'dots': True}
+OPTS = {'depths': [0, 1, 2], 'mixed': 0.1, 'copy': 0.0, 'dots': True, 'hard': 0.35, 'scratch': 0.5}
 
 
 def oracle(d):
